@@ -1,6 +1,7 @@
 package main
 
 import (
+	"sync"
 	"encoding/json"
 	"flag"
 	"fmt"
@@ -74,16 +75,39 @@ func main() {
 	}
 	tgen := time.Since(t0).Seconds()
 	dischargeAll(obs, dir, *timeout, *agree, runtime.NumCPU())
-	for _, r := range results {
-		if r.Vacuity != "" {
-			f := dir + "/vacuity_" + sanitize(r.Func) + ".smt2"
-			os.WriteFile(f, []byte(r.Vacuity), 0o644)
-			st, _ := runSolver(solvers[0], f, 5)
-			r.VacuityStatus = st
-			r.Vacuity = ""
+	bad := 0
+	{
+		var wg sync.WaitGroup
+		sem := make(chan struct{}, runtime.NumCPU())
+		for _, r := range results {
+			r := r
+			wg.Add(1)
+			go func() {
+				defer wg.Done()
+				sem <- struct{}{}
+				defer func() { <-sem }()
+				if r.EndQuery != "" {
+					f := dir + "/end_" + sanitize(r.Func) + ".smt2"
+					os.WriteFile(f, []byte(r.EndQuery), 0o644)
+					r.EndStatus, _ = runSolver(solvers[0], f, 3)
+					r.EndQuery = ""
+				}
+				if r.Vacuity != "" {
+					f := dir + "/vacuity_" + sanitize(r.Func) + ".smt2"
+					os.WriteFile(f, []byte(r.Vacuity), 0o644)
+					r.VacuityStatus, _ = runSolver(solvers[0], f, 3)
+					r.Vacuity = ""
+				}
+			}()
+		}
+		wg.Wait()
+		for _, r := range results {
+			if r.EndStatus == "unsat" {
+				fmt.Printf("VACUOUS %s: the assumptions of this function are contradictory\n", r.Func)
+				bad++
+			}
 		}
 	}
-	bad := 0
 	for _, r := range results {
 		if len(r.Unsupported) > 0 {
 			fmt.Printf("OUTSIDE-SUBSET %s\n", r.Func)
